@@ -236,6 +236,9 @@ fn judge(m: &TlsMaterial, c: &TlsCase, o: &TlsObs, rep: &mut Report, d: &dyn Fn(
     if c.server_mode == 1 && !c.with_cert {
         if !auths.is_empty() {
             fail("auth-without-required-cert", "after_authentication was called although the required client certificate was not presented".into(), rep);
+        } else if let Err(e) = tls::tls_records(&o.world.server_raw_after) {
+            // whatever the server says about a failed handshake, it says it inside TLS (alert records)
+            fail("plaintext-after-upgrade", format!("after a TLS handshake that failed (required client certificate missing) the server sent bytes that are not TLS records: {}", e), rep);
         } else {
             rep.counters.inc("required_cert_missing_refused");
         }
